@@ -12,30 +12,48 @@ step (half a resolution step, NA ↦ NA) is property C06 and `fieldOK` pins both
 namespace N2k.C05
 open N2k.Layout
 
-/-- One field: if the parser's bits mirror the setter's, the parser returns the code the setter was given,
-for every value the field can hold, and both sides agree on the scaled side record. -/
+/-- One field: if the parser's bits mirror the setter's, the parser returns the value (code) the setter was given,
+for every value in the field's domain (`Pair.inDomain`: everything below `2^W`; for an `n`-bit field whose all-ones
+pattern the parser hands back as the enumeration's own "not available" value - PGN 130311 humidity source -
+everything below the all-ones pattern and that NA value, so NA is preserved as NA), and both sides agree on the
+scaled side record. -/
 theorem C05_field_roundtrip (P : Pair) (o : Nat) (params : Nat → Nat)
-    (hok : fieldOK P o = true) (hlt : params o < 2 ^ P.W o) :
-    (decode P.parser (encode P.setterBits params)).getD o 0 = params o ∧
+    (hok : fieldOK P o = true) (hdom : P.inDomain o (params o)) :
+    P.value o ((decode P.parser (encode P.setterBits params)).getD o 0) = params o ∧
       lookupRec P.setScaled o = lookupRec P.parseScaled o :=
-  ⟨field_roundtrip P o params hok hlt, field_scaled P o hok⟩
+  ⟨field_value_roundtrip P o params hok hdom, field_scaled P o hok⟩
 
 /-- Whole pair: parsing the message produced by the setter succeeds (PGN guard, payload constants such as the
 Maretron proprietary header, accepted length) and returns every field that is both set and parsed. -/
 theorem C05_layout_roundtrip (P : Pair) (params : Nat → Nat) (hok : pairOK P = true)
-    (hlt : ∀ o ∈ P.checked, params o < 2 ^ P.W o) :
+    (hdom : ∀ o ∈ P.checked, P.inDomain o (params o)) :
     ∃ vals, parseMsg P (setMsg P params).1 (setMsg P params).2 = some vals ∧
       ∀ o ∈ P.checked, vals.getD o 0 = params o ∧
         lookupRec P.setScaled o = lookupRec P.parseScaled o := by
   simp only [pairOK, guardsOK, Bool.and_eq_true, List.all_eq_true] at hok
   obtain ⟨hf, ⟨hpg, hg⟩, hl⟩ := hok
-  refine ⟨decode P.parser (encode P.setterBits params), ?_, ?_⟩
+  refine ⟨(List.range P.parser.length).map fun o =>
+    P.value o ((decode P.parser (encode P.setterBits params)).getD o 0), ?_, ?_⟩
   · have h1 : pgnAccepted P P.pgn = true := by
       simp only [guardOK, beq_iff_eq] at hg
       simp [pgnAccepted, hg]
-    simp [parseMsg, setMsg, h1, len_accepted P params hl, payloadGuard_holds P params hpg]
+    simp only [parseMsg, setMsg, h1, len_accepted P params hl, payloadGuard_holds P params hpg, Bool.and_self,
+      ↓reduceIte]
   · intro o ho
-    exact C05_field_roundtrip P o params (hf o ho) (hlt o ho)
+    have h := C05_field_roundtrip P o params (hf o ho) (hdom o ho)
+    refine ⟨?_, h.2⟩
+    by_cases hin : o < P.parser.length
+    · simp only [List.getD_eq_getElem?_getD, List.getElem?_map, List.getElem?_range hin, Option.map_some,
+        Option.getD_some]
+      simpa [List.getD_eq_getElem?_getD] using h.1
+    · -- no parser entry: the returned list is too short (value 0), and the obligation forces the parameter to be 0
+      have hge : P.parser.length ≤ o := by omega
+      have h0 : (decode P.parser (encode P.setterBits params)).getD o 0 = 0 := by
+        simp [decode, List.getD_eq_getElem?_getD, List.getElem?_eq_none (by simp; omega : (List.map _ P.parser).length ≤ o)]
+      have h1 := h.1
+      rw [h0, value_out_of_range P o (hf o ho) hge] at h1
+      rw [← h1]
+      simp [List.getD_eq_getElem?_getD, List.getElem?_eq_none (by simp; omega : (List.map _ (List.range P.parser.length)).length ≤ o)]
 
 /-- A parser with a PGN guard refuses every message that carries another PGN, whatever the payload. -/
 theorem C05_guard (P : Pair) (g pgn : Nat) (payload : List Bool) (hg : P.guard = some g) (hne : pgn ≠ g) :
@@ -60,12 +78,12 @@ theorem C05_junk_independent (P : Pair) (o : Nat) (hok : fieldOK P o = true) (pa
 
 /-- The obligations generated from the source on this run give the round trip for every translated pair … -/
 theorem C05_generated_roundtrip (P : Pair) (hP : P ∈ N2k.Gen.Layouts.okPairs) (params : Nat → Nat)
-    (hlt : ∀ o ∈ P.checked, params o < 2 ^ P.W o) :
+    (hdom : ∀ o ∈ P.checked, P.inDomain o (params o)) :
     ∃ vals, parseMsg P (setMsg P params).1 (setMsg P params).2 = some vals ∧
       ∀ o ∈ P.checked, vals.getD o 0 = params o ∧
         lookupRec P.setScaled o = lookupRec P.parseScaled o :=
   C05_layout_roundtrip P params
-    (List.all_eq_true.mp N2k.Gen.LayoutProofs.C05_all_pairs P hP) hlt
+    (List.all_eq_true.mp N2k.Gen.LayoutProofs.C05_all_pairs P hP) hdom
 
 /-- … and the refusal of foreign PGNs by every translated parser. -/
 theorem C05_generated_guard (P : Pair) (hP : P ∈ N2k.Gen.Layouts.okPairs) (pgn : Nat) (payload : List Bool)
